@@ -15,7 +15,7 @@ if [ $runtests = 1 ]; then
 fi
 tier=${MUTANT_TIER:-quick}
 for prop in "$@"; do
-  out=$(cd /verif && VERIF_FAIL_FAST=1 PRAATIO_SRC="$scratch" VERIF_EVIDENCE_DIR="$scratch/.evidence" ./check "$prop" $tier 2>/dev/null)
+  out=$(cd "${VERIF_ROOT:-/verif}" && VERIF_FAIL_FAST=1 PRAATIO_SRC="$scratch" VERIF_EVIDENCE_DIR="$scratch/.evidence" ./check "$prop" $tier 2>/dev/null)
   rc=$?
   if [ $rc = 1 ] && echo "$out" | grep -q "^VIOLATION property=$prop"; then
      echo "DETECTED $prop $(basename $patch): $(echo "$out" | grep -A1 '^VIOLATION' | head -2 | tail -1 | cut -c1-160)"
